@@ -11,7 +11,7 @@ import (
 
 var defaultPatterns = []string{"./pkg/bitio", "./pkg/ranges", "./internal/bitiox", "./internal/mathx", "./pkg/decode", "./pkg/interp",
 	"./internal/aheadreadseeker", "./internal/progressreadseeker", "./format/inet/flowsdecoder", "./internal/hexpairwriter", "./internal/asciiwriter",
-	"./internal/gojqx", "./format/toml", "./format/xml", "./format/yaml", "./format/csv", "./format/crypto"}
+	"./internal/gojqx", "./format/toml", "./format/xml", "./format/yaml", "./format/csv", "./format/crypto", "./format/text", "./format/json"}
 
 func Main(args []string) int {
 	if len(args) == 0 {
@@ -172,6 +172,7 @@ func cmdVerify(args []string) int {
 					}
 					if vcOf != nil && want == "unsat" {
 						c := *vcOf
+						c.Approx = true
 						c.Assumes = make([]*Term, len(vcOf.Assumes))
 						for i, a := range vcOf.Assumes {
 							c.Assumes[i] = stripQuantified(a)
